@@ -12,7 +12,7 @@ cleanup() { git -C /repo worktree remove --force "$wt" 2>/dev/null; rm -rf "$wt"
 trap cleanup EXIT
 if ! git -C "$wt" apply "$patch"; then echo "PATCH-DOES-NOT-APPLY"; exit 2; fi
 ( cd "$wt" && go build ./... ) || { echo "MUTANT-DOES-NOT-COMPILE"; exit 2; }
-out=$(cd "$wt" && go test -count=1 -vet=off ./... 2>&1 | tail -3)
+out=$(cd "$wt" && go test -count=1 -vet=off -timeout 120s ./... 2>&1 | tail -3)
 if ! echo "$out" | grep -q '^ok'; then echo "MUTANT-FAILS-EXISTING-TESTS: $out"; exit 3; fi
 det=1
 for id in "$@"; do
